@@ -43,7 +43,7 @@ func checkC01(c *Check) {
 		c05Flatten(c, ic)
 	}
 	// termination: a mutex taken on the compile path is released on every exit
-	n := lockPairs(c, "LOCK-PAIR", reachSet(p, entries))
+	n := blockingResources(c, "LOCK-PAIR", "HELD-ACROSS-NESTING", reachSet(p, entries))
 	c.Counts["lock_sites_on_compile_path"] = n
 	if n == 0 {
 		c.Undecidedf("LOCK-PAIR", "compile path", "-", "no mutex acquisition found on the compile path (the import collector locks the shared file table): unresolved anchor")
